@@ -23,9 +23,12 @@ EXPLANATION = ("The parse functions, write, connect, disconnect, read, _receive 
                "publish/subscribe/queue logs; the receive task may leave its loop only by cancellation or after enqueueing an error.")
 
 
+ALSO_PROPERTY = ("C01",)  # "echoed under the in-prefix decodes to the same message, payloads containing ';' included": C18 contains the codec round trip
+
+
 def build(world):
     gu.prepare(world)
-    return gu.mk(mqtt_c.units(world))
+    return gu.mk(mqtt_c.units(world)) + gu.codec_units(world, ["roundtrip"])
 
 
 class FakeClient:
@@ -79,6 +82,26 @@ def native_search():
         got = mq.MQTTTransport._parse_mqtt_to_message(f"{inp}/1/2/1/0/49", "1;2;3")
         if got != "1;2;1;0;49;1;2;3":
             return {"topic": f"{inp}/1/2/1/0/49", "observed": got}, n
+
+    # the echo of a written message decodes to the message (MQTT payloads may hold any character, line boundaries included)
+    from aiomysensors.model.message import Message, MessageSchema
+    from aiomysensors.model.protocol import get_protocol
+    for ver in ("1.4", "2.2"):
+        sch = MessageSchema()
+        sch.set_protocol(get_protocol(ver))
+        for payload in ("", "a;b", "x/y", "é", "line one\nline two", "first\u2028second", "\x01\x02\x1c\x1d\x7f", "a\x0bb", "tab\tin"):
+            t = mq.MQTTClient("h", in_prefix="home/in", out_prefix="home/out")
+            m = Message(12, 3, 1, 0, 47, payload)
+            n += 1
+            try:
+                topic, pl, qos = t._parse_message_to_mqtt(sch.dump(m))
+                line = mq.MQTTTransport._parse_mqtt_to_message("home/in/" + topic[len("home/out/"):], pl)
+                back = sch.load(line + "\n")
+                got = (back.node_id, back.child_id, back.command, back.ack, back.message_type, back.payload)
+            except Exception as e:  # noqa: BLE001
+                return {"echo": repr(payload), "version": ver, "observed": f"{type(e).__name__}: {e}"}, n
+            if got != (12, 3, 1, 0, 47, payload):
+                return {"echo": repr(payload), "version": ver, "observed": f"the echoed message decodes to {got}"}, n
 
     async def scenario():
         t = mq.MQTTClient("h", in_prefix="in")
